@@ -73,6 +73,14 @@ CHECKS = {
    technique="TLA+ reference model of ramfs as a tree of byte arrays with handles and parent chains (RamFS.tla) checked by TLC; its LTS (exhaustive small instance) and TLC-simulated behaviours (two sessions) replayed on the real ramfs behind SFileSys with full tree comparison; concurrent sessions under the race detector",
    text="TLC checks tree shape, leaf files, live handles for every interleaving (at operation granularity) of attach/walk incl. '..'/create/open/read/write/truncate/list/remove/clunk by 1-2 sessions, with symbolic 64-bit offsets. Every emitted transition is executed on a fresh ramfs server: result class, bytes read, listing, walk qid, the whole live tree (hook VerifTree) and the node each fid denotes are compared after each step; nref = parent links (hook VerifValidate) whenever no fid is bound and at the end of each history; any panic is a violation. Truly concurrent sessions run 30-150 rounds (no panic, final refcounts) and, thorough, under the Go race detector.",
    note="Trusted: RamFS.tla; the verif-tagged hooks in ramfs/verif_on.go (read-only views + fresh server). Concurrency is not checked for linearizability against the model (operation-granularity interleavings are covered by the two-session model runs executed sequentially)."),
+ "C15": dict(engine="ufs", cat="model_checking", ref="5 C15",
+   technique="TLA+ model of the host file server with a hostile name alphabet (HostFS.tla: invariant Inside / RootStays) checked by TLC; TLC-simulated request sequences replayed on ufs behind SFileSys in a sandbox whose outside is snapshotted after every request",
+   text="TLC checks on the model that every path a validated request touches is a sequence of ordinary names below the root and that the root survives (268 k states). The same model, with names '', '.', '..', 'a/b', '/', '/etc', 'a\\b', '../x' and '..' chains longer than the depth in walk, create and rename, generates seeded request sequences that are replayed on ufs.NewServer(T/export); an oracle that does not depend on the model compares everything under T outside the export (sentinel dir, prefix-sibling 'export-evil', sibling 'a' and 'etc', T's entry list) and the export root's inode after every request.",
+   note="Trusted: the sandbox snapshot. Runs as root. Symbolic links are out of scope (as stated). Sequences are sampled by TLC simulation (400/5000 behaviours of depth 45), not enumerated."),
+ "C19": dict(engine="ufs", cat="model_checking", ref="5 C19",
+   technique="HostFS.tla (POSIX-like tree with inodes and open descriptors) checked by TLC and used to generate request sequences; three-way replay: ufs behind SFileSys, equivalent direct OS calls on a twin directory (the oracle), and the model",
+   text="Each model step (create, mkdir, open r/w/rw +- truncate, read, write at offsets incl. beyond the end, truncate, chmod, rename, remove, clunk, walk) is executed through a ufs session and as the equivalent os call on a twin directory; after every step the two host trees must be equal (names, kinds, contents, permission bits), data read through the fid must equal the twin file's data at that offset, and stat / listing through freshly walked fids must match os.Stat / os.ReadDir of the twin. Model-vs-twin disagreement is reported as model_drift only.",
+   note="Trusted: the twin mapping of requests to OS calls in engines/ufs.go. Operations on fids whose path another fid removed / renamed / re-created are not generated (no equivalent OS operation is defined for a dangling fid). Runs as root with umask 0: permission denials are not exercised."),
 }
 
 NA_REASON = "check not built yet in this round; planned per DESIGN.md section 5 (specification exists or is planned, no verdict is claimed)"
